@@ -254,7 +254,10 @@ func (d *DFA) SearchAtAnchored(cache *DFACache, haystack []byte, at int) int {
 		if d.hasWordBoundary {
 			st := cache.getState(sid)
 			if st != nil && st.checkWordBoundaryFast(b) {
-				return pos
+				// A match ends here because of the boundary before b. It is recorded,
+				// not returned: threads that can go on (a greedy tail such as \bx.*y.*)
+				// still extend it, and if none can, the dead transition returns it.
+				lastMatch = pos
 			}
 		}
 
@@ -1261,7 +1264,10 @@ func (d *DFA) searchAt(cache *DFACache, haystack []byte, startPos int) int { //n
 		b := haystack[pos]
 
 		if d.hasWordBoundary && d.checkWordBoundaryMatch(currentState, b) {
-			return pos
+			// A match ends here because of the boundary before b. It is recorded,
+			// not returned: threads that can go on (a greedy tail such as \bx.*y.*)
+			// still extend it, and if none can, the dead transition returns it.
+			lastMatch = pos
 		}
 
 		// Flat table lookup for transition
